@@ -1202,6 +1202,12 @@ void reb_integrator_whfast_part2(struct reb_simulation* const r){
             p_j[index].x += r->dt/2.*p_j[index].vx;
             p_j[index].y += r->dt/2.*p_j[index].vy;
             p_j[index].z += r->dt/2.*p_j[index].vz;
+            if (sync_pj){
+                // The unsynchronized coordinates get restored below. Do not lose this drift of the variational centre of mass.
+                sync_pj[index].x += r->dt/2.*p_j[index].vx;
+                sync_pj[index].y += r->dt/2.*p_j[index].vy;
+                sync_pj[index].z += r->dt/2.*p_j[index].vz;
+            }
             reb_particles_transform_jacobi_to_inertial_posvel(particles_var1, p_j+index, particles, N_real, N_active);
             if (r->calculate_megno){
                 reb_calculate_acceleration_var(r);
